@@ -12,7 +12,7 @@ SUBTAGS = ['*', '', 'a', 'de', 'x', 'DE', '1996', 'latn']
 def run(tier, seed):
     ck = Check(PID, tier, seed)
     rnd = ck.rnd
-    ck.proof = lib.proof_step('props/C13.v', matchcheck.MATCH_CONE + ['LangFacts.v'])
+    ck.proof = lib.proof_step('props/C13.v', matchcheck.MATCH_CONE + ['LangFacts.v'] + ['LangWalk.v', 'MemoFacts.v', 'HistFacts.v'])
     ck.broken += ck.proof['broken']
     if not ck.proof['driver_ok']:
         ck.notes['driver'] = 'unavailable: model-side runs skipped, searching with the implementation-side oracles only'
